@@ -136,6 +136,14 @@ def worker(case, led):
                     lim = kw.get("per_bond") or [kw["M"]] * (n + 1)
                     ok = all(bd[b] <= lim[b] for b in range(1, n))
                     led.check(ok, f"post:{fn}:bond_limit", fn, f"bond_dims {bd} exceed limits {list(lim)}", key + ("limit",), fields, rep, nontriv)
+                    # the limits travel with the object: a copy of the configured state, compressed later, obeys the same limits
+                    try:
+                        out_c = set_config(base.copy(), crit, **kw).copy().compress()
+                        bdc = list(out_c.bond_dims)
+                        led.check(all(bdc[b] <= lim[b] for b in range(1, n)) and bdc == bd, f"post:{fn}:bond_limit_after_copy", fn,
+                                  f"a copy of the configured state compresses to {bdc}, the state itself to {bd}; limits {list(lim)}", key + ("limit-copy",), fields, rep, nontriv)
+                    except Exception as e:
+                        led.check(False, f"post:{fn}:total", fn, f"compress of a copy raised {type(e).__name__}: {e}", key + ("copy",), fields, rep)
                 led.check(all(b <= b0 for b, b0 in zip(bd, bd0)), f"post:{fn}:no_bond_grows", fn, f"{bd0} -> {bd}", key + ("grow",), fields, rep, nontriv)
                 # --- norm does not grow
                 led.check(np.linalg.norm(vc) <= nrm0 * (1 + KE), f"post:{fn}:norm_not_increased", fn,
@@ -186,9 +194,36 @@ def worker(case, led):
                 led.check(False, f"post:{fn}:ret_s_total", fn, f"compress(ret_s=True) raised {e!r}", (name, n, label, direction, "ret_s"), {}, {})
 
 
+def w_config_copy(case, led):
+    """CompressConfig.copy(): every field equal, per-bond limits kept, and independent of the original (the objects derived from a state - copies, sums, operator
+    images, density operators, tree copies - all obtain their configuration through it)"""
+    from renormalizer.utils import CompressConfig, CompressCriteria
+    _, seed = case
+    rng = np.random.default_rng([seed, 555])
+    for k in range(40):
+        crit = [CompressCriteria.fixed, CompressCriteria.threshold, CompressCriteria.both][k % 3]
+        c = CompressConfig(crit, threshold=float(rng.uniform(1e-4, 0.5)), max_bonddim=int(rng.integers(1, 40)), vmethod=["1site", "2site"][k % 2])
+        if k % 2:
+            c.max_dims = np.array([1] + [int(x) for x in rng.integers(1, 9, size=int(rng.integers(1, 7)))] + [1])
+        d = c.copy()
+        diff = []
+        for name_, v in vars(c).items():
+            w = vars(d).get(name_, "<missing>")
+            same = np.array_equal(np.asarray(v, dtype=object), np.asarray(w, dtype=object)) if isinstance(v, (list, tuple, np.ndarray)) or isinstance(w, (list, tuple, np.ndarray)) else (v == w or v is w)
+            if not same:
+                diff.append((name_, repr(v)[:40], repr(w)[:40]))
+        key = ("config-copy", seed, k)
+        rep = {"criteria": str(crit), "fields": {n_: repr(v_)[:60] for n_, v_ in vars(c).items()}}
+        led.check(not diff, "post:CompressConfig.copy:all_fields_equal", "CompressConfig.copy", f"fields differ after copy(): {diff[:3]}", key, {"per_bond": bool(k % 2)}, rep)
+        if c.max_dims is not None and d.max_dims is not None:
+            d.max_dims[0] = 99
+            led.check(c.max_dims[0] != 99, "post:CompressConfig.copy:independent_of_the_original", "CompressConfig.copy", "per-bond limits are shared with the original", key + ("indep",), {}, rep)
+
+
 def check(run):
     from props import C05_proof
     C05_proof.prove(run)
+    run_cases(run, w_config_copy, [("cfgcopy", run.seed + i) for i in range(2 if run.tier == "quick" else 6)])
     seeds = [run.seed] if run.tier == "quick" else [run.seed, run.seed + 1, run.seed + 2]
     ns = [2, 3, 4] if run.tier == "quick" else [2, 3, 4, 5]
     cases = [(name, n, s, run.tier) for name in ("spin", "spinqn", "spin2qn", "holstein") for n in ns for s in seeds]
